@@ -816,6 +816,76 @@ int __wrap_lsetxattr(const char *path, const char *name, const void *value, size
 	return __real_lsetxattr(path, name, value, size, flags);
 }
 
+/* ---- path-taking calls the project does not use today: monitored only (jail), so that a change that starts using the link-following
+ *      or "at" variants is still resolved and checked the way the kernel would resolve it ---- */
+int __real_setxattr(const char *, const char *, const void *, size_t, int);
+int __real_chmod(const char *, mode_t);
+int __real_chown(const char *, uid_t, gid_t);
+int __real_lchown(const char *, uid_t, gid_t);
+int __real_truncate(const char *, off_t);
+int __real_rename(const char *, const char *);
+int __real_link(const char *, const char *);
+int __real_unlinkat(int, const char *, int);
+int __real_mkdirat(int, const char *, mode_t);
+int __real_symlinkat(const char *, int, const char *);
+int __real_rmdir(const char *);
+
+int __wrap_setxattr(const char *path, const char *name, const void *value, size_t size, int flags)
+{
+	if (sim_active) jail_check("setxattr", AT_FDCWD, path, 1);
+	return __real_setxattr(path, name, value, size, flags);
+}
+int __wrap_chmod(const char *path, mode_t mode)
+{
+	if (sim_active) jail_check("chmod", AT_FDCWD, path, 1);
+	return __real_chmod(path, mode);
+}
+int __wrap_chown(const char *path, uid_t u, gid_t g)
+{
+	if (sim_active) jail_check("chown", AT_FDCWD, path, 1);
+	return __real_chown(path, u, g);
+}
+int __wrap_lchown(const char *path, uid_t u, gid_t g)
+{
+	if (sim_active) jail_check("lchown", AT_FDCWD, path, 0);
+	return __real_lchown(path, u, g);
+}
+int __wrap_truncate(const char *path, off_t len)
+{
+	if (sim_active) jail_check("truncate", AT_FDCWD, path, 1);
+	return __real_truncate(path, len);
+}
+int __wrap_rename(const char *a, const char *b)
+{
+	if (sim_active) { jail_check("rename", AT_FDCWD, a, 0); jail_check("rename", AT_FDCWD, b, 0); }
+	return __real_rename(a, b);
+}
+int __wrap_link(const char *a, const char *b)
+{
+	if (sim_active) jail_check("link", AT_FDCWD, b, 0);
+	return __real_link(a, b);
+}
+int __wrap_unlinkat(int dirfd, const char *path, int flags)
+{
+	if (sim_active) jail_check("unlinkat", dirfd, path, 0);
+	return __real_unlinkat(dirfd, path, flags);
+}
+int __wrap_mkdirat(int dirfd, const char *path, mode_t mode)
+{
+	if (sim_active) jail_check("mkdirat", dirfd, path, 0);
+	return __real_mkdirat(dirfd, path, mode);
+}
+int __wrap_symlinkat(const char *target, int dirfd, const char *path)
+{
+	if (sim_active) jail_check("symlinkat", dirfd, path, 0);
+	return __real_symlinkat(target, dirfd, path);
+}
+int __wrap_rmdir(const char *path)
+{
+	if (sim_active) jail_check("rmdir", AT_FDCWD, path, 0);
+	return __real_rmdir(path);
+}
+
 ssize_t __wrap_lgetxattr(const char *path, const char *name, void *value, size_t size)
 {
 	if (!sim_active)
